@@ -11,13 +11,13 @@ import (
 type FaultKind int
 
 const (
-	FNone       FaultKind = iota
-	FGoErr                // returns a plain Go error
-	FUgoErr               // returns a *ugo.Error
-	FPanicStr             // panics with a string
-	FPanicErr             // panics with an error value
-	FPanicRT              // a real runtime.Error (nil map write / index out of range)
-	FPanicObj             // panics with a custom struct
+	FNone     FaultKind = iota
+	FGoErr              // returns a plain Go error
+	FUgoErr             // returns a *ugo.Error
+	FPanicStr           // panics with a string
+	FPanicErr           // panics with an error value
+	FPanicRT            // a real runtime.Error (nil map write / index out of range)
+	FPanicObj           // panics with a custom struct
 	numFaultKinds
 )
 
@@ -39,11 +39,11 @@ type FaultAt struct {
 // same spec can be instantiated many times (solo run, concurrent run, used VM
 // vs fresh VM, panicking vs error-returning twin).
 type WorldSpec struct {
-	Name    string
-	Faults  []FaultAt
-	Choices [][]int // Choices[id][occurrence]
-	Pooled  []bool  // Pooled[k]: k-th call() uses Acquire/Release
-	Repeat  []int   // Repeat[k]: k-th call() invokes this many extra times (results discarded) before the real one — exercises re-use of one handle
+	Name      string
+	Faults    []FaultAt
+	Choices   [][]int // Choices[id][occurrence]
+	Pooled    []bool  // Pooled[k]: k-th call() uses Acquire/Release
+	Repeat    []int   // Repeat[k]: k-th call() invokes this many extra times (results discarded) before the real one — exercises re-use of one handle
 	ObjFaults []ObjFault
 	// DowngradePanics makes every panic kind behave as FGoErr with the same text
 	// (the error-returning twin of a panicking world).
@@ -102,13 +102,14 @@ type World struct {
 func NewWorld(spec *WorldSpec, rc *RunCtx) *World {
 	w := &World{Spec: spec, occ: map[int]int{}, chooseN: map[int]int{}, RC: rc}
 	w.Globals = ugo.Map{
-		"log":    &ugo.Function{Name: "log", ValueEx: w.fnLog},
-		"op":     &ugo.Function{Name: "op", ValueEx: w.fnOp},
-		"choose": &ugo.Function{Name: "choose", ValueEx: w.fnChoose},
-		"call":   &ugo.Function{Name: "call", ValueEx: w.fnCall},
-		"trace":  &ugo.Function{Name: "trace", ValueEx: w.fnTrace},
-		"obj":    &ugo.Function{Name: "obj", ValueEx: w.fnObj},
-		"WID":    ugo.String(spec.Name),
+		"log":     &ugo.Function{Name: "log", ValueEx: w.fnLog},
+		"op":      &ugo.Function{Name: "op", ValueEx: w.fnOp},
+		"choose":  &ugo.Function{Name: "choose", ValueEx: w.fnChoose},
+		"call":    &ugo.Function{Name: "call", ValueEx: w.fnCall},
+		"trace":   &ugo.Function{Name: "trace", ValueEx: w.fnTrace},
+		"obj":     &ugo.Function{Name: "obj", ValueEx: w.fnObj},
+		"callrep": &ugo.Function{Name: "callrep", ValueEx: w.fnCallRep},
+		"WID":     ugo.String(spec.Name),
 	}
 	return w
 }
@@ -239,6 +240,42 @@ func (w *World) fnCall(c ugo.Call) (ugo.Object, error) {
 	return ret, nil
 }
 
+// fnCallRep invokes a script function n times on one Invoker handle
+// (Acquire once, Invoke n times, Release) and returns the last result; it
+// stops at the first error, like the equivalent in-script loop.
+func (w *World) fnCallRep(c ugo.Call) (ugo.Object, error) {
+	if c.Len() < 2 {
+		return nil, ugo.ErrWrongNumArguments.NewError("callrep wants a function and a count")
+	}
+	n, _ := c.Get(1).(ugo.Int)
+	k := w.calls
+	w.calls++
+	pooled := false
+	if k < len(w.Spec.Pooled) {
+		pooled = w.Spec.Pooled[k]
+	}
+	args := make([]ugo.Object, 0, c.Len()-2)
+	for i := 2; i < c.Len(); i++ {
+		args = append(args, c.Get(i))
+	}
+	inv := ugo.NewInvoker(c.VM(), c.Get(0))
+	if pooled {
+		inv.Acquire()
+		defer inv.Release()
+	}
+	var ret ugo.Object = ugo.Undefined
+	for i := 0; i < int(n); i++ {
+		r, err := inv.Invoke(args...)
+		if err != nil {
+			w.CallErrs = append(w.CallErrs, CanonErr(err))
+			return nil, err
+		}
+		ret = r
+	}
+	w.CallErrs = append(w.CallErrs, "ok")
+	return ret, nil
+}
+
 // fnTrace resolves the positions of an error without going through fmt (whose
 // sync.Pool would add happens-before edges between simulated threads).
 func (w *World) fnTrace(c ugo.Call) (ugo.Object, error) {
@@ -291,3 +328,6 @@ const Prelude = "global (log, op, choose, call, trace, WID)\n"
 
 // PreludeObj additionally declares obj (host objects).
 const PreludeObj = "global (log, op, choose, call, trace, WID, obj)\n"
+
+// PreludeCall additionally declares callrep.
+const PreludeCall = "global (log, op, choose, call, trace, WID, callrep)\n"
